@@ -129,6 +129,18 @@ theorem H_needed :
   simp only [fins, Chain]
   decide
 
+/-- **Negation witness for the finding `C27:aborted-delete-corrupts-pending-node`** (observed on the real trie:
+`hist; b 4528; t; i pd; i pb; c; t; d pb; a; fin; check 4528` → `missing`). The block persists the node set `new`
+its change collector holds, but its state contains a node `a` that is neither in the previous state nor in `new`
+(the collector's pending copy was altered to `a'` by the aborted transaction). The chain hypothesis of
+`prune_safe` fails for such a block, and its complete state cannot be read back — with no pruning at all. -/
+theorem unpersisted_state_node_unreadable :
+    let ops := [Op.fin ⟨5, ["r", "a'"], [], ["r", "a"]⟩]
+    ¬ Chain (fins ops) ∧ vmax ops ≤ 5 ∧ (runOps ops).check 5 = some false := by
+  refine ⟨?_, by decide, by decide⟩
+  simp only [fins, Chain]
+  decide
+
 /-- non-vacuity of `prune_safe`: a history with a delete, a re-creation in a later round (another hash) and two
 prunes meets its hypotheses (origin = the digit in the hash token) -/
 def exOps : List Op :=
